@@ -15,7 +15,10 @@ def apply_bounds(genomes: np.ndarray, bounds: np.ndarray, method: str) -> np.nda
     upper_bounds = bounds[:, 1]
     if method == "clip":
         return np.clip(genomes, bounds[:, 0], bounds[:, 1])
-    elif method == "reflect":
+    # Points already inside the box are returned unchanged; repaired points are clipped,
+    # because the rounded range arithmetic below can overshoot a face by an ulp.
+    inside = (genomes >= lower_bounds) & (genomes <= upper_bounds)
+    if method == "reflect":
         range_size = upper_bounds - lower_bounds
         # Normalize genomes to start from zero and find the number of "flips" needed
         normalized_genomes = genomes - lower_bounds
@@ -26,9 +29,10 @@ def apply_bounds(genomes: np.ndarray, bounds: np.ndarray, method: str) -> np.nda
         is_odd_flip = np.mod(flips, 2) == 1
         reflected_genomes = np.where(is_odd_flip, range_size - mod_genomes, mod_genomes)
         # Return genomes to their original positions with bounds applied
-        return lower_bounds + reflected_genomes
+        repaired_genomes = lower_bounds + reflected_genomes
     elif method == "toroidal":
         range_size = upper_bounds - lower_bounds
-        return lower_bounds + (genomes - lower_bounds) % range_size
+        repaired_genomes = lower_bounds + (genomes - lower_bounds) % range_size
     else:
         raise ValueError(f"Unknown method: {method}")
+    return np.where(inside, genomes, np.clip(repaired_genomes, lower_bounds, upper_bounds))
